@@ -326,7 +326,7 @@ func main() {
 	maxExec := int64(6000)
 	if run.Thorough() {
 		dbound, pbound = 3, 1
-		maxExec = 40000
+		maxExec = 20000
 	}
 	if run.Replay != "" {
 		b, _ := os.ReadFile(run.Replay)
